@@ -7,12 +7,13 @@ check('C07',
       design_ref='DESIGN.md §3 C07',
       text='Every (buffer size, offset, length) triple up to the stated size is executed against the real calc_chksum with six content '
            'patterns (and all contents for sizes <= 2), once with an inaccessible page directly after the permitted range and once with one '
-           'directly before it; the result is compared with a plain byte loop. Sizes cross the 8-byte stride, the 256-byte carry flush and 512.',
+           'directly before it; the result is compared with a plain byte loop. Sizes cross the 8-byte stride, the 256-byte carry flush and 512. '
+           'Long buffers: every size up to longmax (4500 quick / 8000 thorough) with all-0xff, each single byte lane of the 4-byte stride all 0xff (two phases) and a ramp, offsets 0..3, the three longest lengths: the carry counters of the strided loop overflow only after more than 1000 such bytes.',
       level_note='Exhaustive over the stated lattice only: contents are patterns, not all byte strings; sizes above the bound are not run. '
                  'Trusted: the reference loop, mprotect/SIGSEGV as the out-of-range-read oracle.',
       rule='case = (size, offset, len, content pattern[, hot byte]); all distinct by construction; non-trivial = size >= 8 (the 4-byte strided loop runs) or size-2 exhaustive contents',
       assumptions=['x86-64: unaligned 32-bit loads are legal (UBSan alignment check off)', 'contents are drawn from 6 patterns + all contents for size<=2'],
       parts=[dict(name='chksum', harness='c07_chksum', variant='san',
-                  quick=dict(args=['maxsize=300', 'hotmax=64'], deadline=90),
-                  thorough=dict(args=['maxsize=700', 'hotmax=700'], deadline=600))])
+                  quick=dict(args=['maxsize=300', 'hotmax=64', 'longmax=4500'], deadline=90),
+                  thorough=dict(args=['maxsize=700', 'hotmax=700', 'longmax=8000'], deadline=600))])
 
